@@ -313,6 +313,18 @@ def rule_sentinel(ctx, tu, I):
             guarded = cd is not None and any(
                 (("%s[%r] == -1" % (st, Poly.sym(cd[0]) * Poly.const(6) + Poly.sym(cd[1]))), False) in facts
                 for st in SENT)
+            r_ = strip(s.rhs, casts=True) if s.rhs is not None else {}
+            if not (zero or guarded) and cd is not None and r_.get("kind") == "ConditionalOperator" and s.op == "=":
+                # value = (neighbour exists) ? propensity : 0   -- the same invariant in one expression
+                c_, a_, b_ = kids(r_)
+                def _is0(e):
+                    e = strip(e, casts=True)
+                    return cxa.const_int(e) == 0 or (e.get("kind") == "FloatingLiteral" and float(e.get("value", "1")) == 0.0)
+                for arm_nz, arm_z, pol in ((a_, b_, True), (b_, a_, False)):
+                    if _is0(arm_z):
+                        cf = set(cxa.cfacts(c_, pol))
+                        if any((("%s[%r] == -1" % (st, Poly.sym(cd[0]) * Poly.const(6) + Poly.sym(cd[1]))), False) in cf for st in SENT):
+                            guarded = True
             inv_tables.setdefault(t, []).append((zero or guarded, s, f))
     inv_ok = {t: all(x[0] for x in v) for t, v in inv_tables.items()}
 
